@@ -102,7 +102,7 @@ func runC05Case(run *ev.Run, cs c05Case) {
 	defer func() { awaitProgress = nil }()
 	switch st, dump := awaitEnd(done, 180*time.Second); st {
 	case endSpinning:
-		spinEnd(run, "C05/attack-never-ends/worker-spins-inside-hit", fmt.Sprintf("%+v: over 10 s and at least 40 goroutine dumps the pacer was not consulted, no target was drawn, no request entered the transport and no result arrived, yet a goroutine keeps running inside vegeta: a hit that never gets its sequence number and timestamp (or never returns)", cs),
+		spinEnd(run, "C05/attack-never-ends/worker-spins-inside-hit", fmt.Sprintf("%+v: over 10 s and at least 12 goroutine dumps the pacer was not consulted, no target was drawn, no request entered the transport and no result arrived, yet a goroutine keeps running inside vegeta: a hit that never gets its sequence number and timestamp (or never returns)", cs),
 			map[string]any{"case": cs, "clause": "attack-never-ends", "goroutines": tail(dump, 4000)})
 		return
 	case endDeadlock:
@@ -344,7 +344,7 @@ func runC05Real(run *ev.Run, cs c05RealCase) {
 	awaitProgress = func() int64 { return p.released.Load() + served.Load() + received.Load() }
 	defer func() { awaitProgress = nil }()
 	if st, dump := awaitEnd(done, 180*time.Second); st == endSpinning {
-		spinEnd(run, "C05/attack-never-ends/worker-spins-inside-hit/real-transport", fmt.Sprintf("%+v: over 10 s and at least 40 goroutine dumps the pacer was not consulted, no request reached the server and no result arrived, yet a goroutine keeps running inside vegeta", cs),
+		spinEnd(run, "C05/attack-never-ends/worker-spins-inside-hit/real-transport", fmt.Sprintf("%+v: over 10 s and at least 12 goroutine dumps the pacer was not consulted, no request reached the server and no result arrived, yet a goroutine keeps running inside vegeta", cs),
 			map[string]any{"real_case": cs, "goroutines": tail(dump, 4000)})
 		return
 	} else if st != endClosed {
